@@ -61,7 +61,7 @@ BOTH = ('"end"', '"start"')
 # name -> dict(cfg=kwargs for cgt_cfg, variants=harness rendering set, bases=number of base dates, obs=observation pass)
 FAMILIES = {
     # one security, five day slots around the 30/31-day edge, every cell 0..2: 59,049 ledgers
-    'core_q': dict(cfg=dict(dayset=1), variants='none', bases=2),
+    'core_q': dict(cfg=dict(dayset=1), variants='none', bases=2, cli_every=97),
     # fractional quantities (halves) on the short window 0,1,31,32
     'frac_q': dict(cfg=dict(dayset=3, buy=(0, 1, 3), sell=(0, 1, 3), qden=2), variants='none', bases=1),
     # splits / unsplits at every position: one split cell, ratios 2, 3, 1/2, 3/2
@@ -89,7 +89,7 @@ FAMILIES = {
     'events_split_t': dict(cfg=dict(dayset=3, buy=(0, 1, 2), sell=(0, 1), events=(1, 2, 3), maxevents=1, grid=2,
                                     splits=(1, 3), maxsplits=1, maxcells=4, timings=BOTH), variants='none', bases=1, obs=True),
     # two securities: independence (a purchase of 1 wholly reserved for its own day's sale next to one that is not)
-    'two_q': dict(cfg=dict(secs='SecSeqAB', dayset=7, buy=(0, 1, 2), sell=(0, 1)), variants='orders', bases=1),
+    'two_q': dict(cfg=dict(secs='SecSeqAB', dayset=7, buy=(0, 1, 2), sell=(0, 1)), variants='orders', bases=1, cli_every=101),
     # two securities, a split of either at every position: one security's split never touches the other
     'two_split_q': dict(cfg=dict(secs='SecSeqAB', dayset=7, buy=(0, 2), sell=(0, 1), splits=(1,), maxsplits=1, timings=BOTH),
                         variants='orders', bases=1),
@@ -155,6 +155,9 @@ def cgt_family(name, seed=1):
     wd = workdir('cgt_' + name)
     out = os.path.join(wd, 'findings.ndjson')
     args = ['--in', m['out'], '--out', out, '--bases', str(fam.get('bases', 1)), '--variants', fam.get('variants', 'none')]
+    if fam.get('cli_every'):
+        common.build_cli()
+        args += ['--cli', common.CGT_TOOL, '--cli-every', str(fam['cli_every'])]
     obs_path = os.path.join(wd, 'obs.ndjson')
     if fam.get('obs'):
         args += ['--obs', obs_path]
